@@ -93,6 +93,27 @@ HISTORY = {
     "C18-4": ("caught", ""),
     "C19-4": ("caught (the hook's working directory did not exist in the driver's set-up, so no hook started)", ""),
     "C20-4": ("missed", "C20 driver: the host application handles SIGUSR1; signals arrive while the module waits, followed by a full reply / close / cut reply / silence"),
+    # round 5
+    "C01-5": ("caught", ""),
+    "C02-5": ("missed", "C02 driver: an argon2id parameter set with more lanes than the machine has CPUs (and one with 255) among the configured sets: records written by an independent implementation must verify"),
+    "C03-5": ("missed", "C03 monitor: the footprint clause for VALID names (an operation on <u> changes <u>.user / <u>.admin only); users whose names extend another user's name with a dot (alice / alice.smith / alice.admin as a user name / bob.x) planted in every store of the names part and in the random histories"),
+    "C04-5": ("missed", "C04 driver: log in on every frontend, change the password / remove the user through another way in (second web listener, the agent's interface, the command line), ask every frontend again at once"),
+    "C05-5": ("missed", "C05 driver: 40 / 70 (thorough 130) stalled peers that sent nothing or a prefix and keep their connection open; further connections must be served as usual"),
+    "C06-5": ("caught (other-instance tokens; the first replay listed is the broken fact)", ""),
+    "C07-5": ("caught", ""),
+    "C08-5": ("caught (temp file opened without O_EXCL)", ""),
+    "C09-5": ("correspondence only (remove of an absent user makes no fsync; no failing input)", "C09 got a history part (Run/C09h, DurHist): several operations on one directory with an I/O error injected into some, judged by hist_ok with the dirty names carried from step to step; proved sound (history_acked_durable) and satisfied by every model history (ModelHist); this exposed the genuine defect D13"),
+    "C10-5": ("missed", "C10 driver: the process runs out of file descriptors for 300 ms while saslauthd clients connect (accept fails with EMFILE); afterwards the socket and the dispatcher must answer"),
+    "C11-5": ("caught", ""),
+    "C12-5": ("missed", "C12 driver: every eighth sequence runs the agent with a zxcvbn policy (strong passwords, weak user names; estimator called by the harness); Run/C12 UpgSeqP: the model's policy is the table of refused (password, user) pairs, the monitor requires the rewrite on an idle agent when the password meets the policy"),
+    "C13-5": ("missed", "C13 driver: every third decode goes into a value that earlier decodes have filled; this exposed the genuine defect D14 (Response.Decode kept a stale Message); seed rebased onto its repair"),
+    "C14-5": ("caught", ""),
+    "C15-5": ("caught", ""),
+    "C16-5": ("correspondence only (failed update deletes the record; the directory stayed valid because another admin existed)", "C16 monitor: from a valid store every operation that does not remove or demote an administrator - successful or failed - leaves a valid store; generated directories get a password change of every administrator present"),
+    "C17-5": ("driver did not build (NewStore lost its policy parameters)", "C17 got a command-line part that depends on no Go signature: the built binary's init / add / update with passwords that clearly fail / meet three policies, policy by flags and by environment, with and without --do-check=false"),
+    "C18-5": ("driver hung (the dispatcher was wedged by the second reload; no watchdog on the probe request)", "C18 driver: watchdog on the request that follows the reload signals: an agent that no longer answers is a reported input"),
+    "C19-5": ("missed", "C19 driver: 40-80 hooks so that starting a round takes a while; the second change is sent as soon as the first hook of the round has logged its start; every hook must also be started at or after it"),
+    "C20-5": ("caught", ""),
 }
 
 
